@@ -231,7 +231,6 @@ impl Monitor for C15 {
                 }
             }
         }
-        ctx.rep.exhaustive = Some(true);
         ctx.rep.notes.insert(format!("exhaustive subset: all pairs and singles for n = 1..={nmax}, 4 reveal variants"));
     }
 }
